@@ -123,6 +123,10 @@ def sprite_extraction(F, S):
 
 def check(F, run, tier):
     S = Summaries(F)
+    from ..rules_archive import find_position_obligations
+    find_position_obligations(F, S, run, ["/Bitmap/", "/Sprite/"])
+    from ..rules_archive import clamp_obligations
+    clamp_obligations(F, S, run, ["/Bitmap/", "/Sprite/"])
     # saving what was loaded reads no memory outside the loaded object: every raw (pointer, count) write of the picture
     # savers is bounded by the extent of what the pointer addresses
     from . import c18 as _c18
